@@ -386,6 +386,15 @@ func lifeScript(g *Gen, sg *sessGen, kind int) {
 		sg.gap(500, 2000)
 		sg.add(refsn.Pkt{Type: refsn.PINGREQ, Data: []byte("c1")})
 		sg.gap(1, 3)
+	case 7: // back from sleep with CONNECT while broker messages wait in the buffer (see genC13 for the rest)
+		sg.add(connectPkt("c1", ka, false, true))
+		sg.gap(300, 900)
+		sg.add(refsn.Pkt{Type: refsn.REGISTER, MsgID: sg.nextMid(), TopicName: "t/a"})
+		sg.gap(100, 400)
+		sg.add(refsn.Pkt{Type: refsn.DISCONNECT, HasDur: true, Duration: uint16(g.Range(3, 20))})
+		sg.gap(800, 2500)
+		sg.add(connectPkt("c1", ka, false, false))
+		sg.gap(200, 900)
 	}
 }
 
@@ -393,13 +402,27 @@ func lifeScript(g *Gen, sg *sessGen, kind int) {
 func genC13(g *Gen, idx int) *Plan {
 	cfg := g.BaseCfg()
 	cfg.Sched = g.Sched("gateway/handler1.go", "util/conn_with_context.go", "gateway/gateway.go", "transactions/")
-	kind := (idx / 8) % 7
+	kind := (idx / 8) % 8
 	causeK := idx % 8
 	p := &Plan{Cfg: cfg}
 	sg := &sessGen{g: g, cid: "c1"}
 	sg.gap(5, 300)
 	lifeScript(g, sg, kind)
 	peer := PeerPlan{Name: "p1", Policy: PeerPolicy{WillTopic: "w/t", WillMsg: []byte("bye")}}
+	if kind == 7 {
+		// QoS 0-2 messages arrive during the sleep (the last ops are DISCONNECT(d), CONNECT); their retry
+		// timers come round every few ms, the gateway is slow: a tick falls into the wake-up procedure
+		tS, tW := sg.ops[len(sg.ops)-2].AtMs, sg.ops[len(sg.ops)-1].AtMs
+		for i := 0; i < int(g.Range(1, 4)); i++ {
+			p.Broker.Injects = append(p.Broker.Injects, BrokerInject{AtMs: g.Range(tS+100, tW-50), Session: "p1", Force: true, Topic: []string{"t/a", "ab", "n/1"}[g.Intn(3)],
+				Payload: serialPayload("z", i, 2), QoS: uint8(g.Range(0, 2))})
+		}
+		p.Cfg.RetryDelayMs = g.Range(3, 40)
+		p.Cfg.RetryCount = uint(g.Range(2, 6))
+		p.Cfg.SN.MaxLatUs = g.Range(300, 2000)
+		p.Cfg.Sched = simrt.SchedCfg{Density: 0.3 + g.Float()*0.7, Overlap: true, StallProb: 0.25, MaxStall: 5 * time.Millisecond, MaxStalls: 60,
+			StallAfter: time.Duration(tW) * time.Millisecond}
+	}
 	if kind == 3 && g.Bool(0.5) {
 		// pending broker->client transactions at the moment of the cause
 		p.Broker.Injects = g.injects("p1", int(g.Range(1, 4)), sg.t-200, sg.t+400, "m")
@@ -568,11 +591,11 @@ func init() {
 		Rule:   "25 connect-exchange scripts (every prefix of CONNECT[will][AUTH][WILLTOPIC][WILLMSG], repeated CONNECT/AUTH/WILLTOPIC, a refused step: wildcard/QoS 3/empty WILLTOPIC, AUTH with another method, CONNECT with zero keep-alive or an unknown protocol id while an exchange is open) after which the peer is silent; complete scripts face a broker that never answers CONNECT; each script with seeded timing, link latency and yield sites; virtual-time deadline = last CONNECT + 5 s + 100 ms poll + 3 ms slack; non-trivial = session in which a CONNECT was consumed and no broker CONNACK arrived",
 		Gen:    genC10, Oracle: oracleC10, Quick: 500, Thorough: 15000})
 	Register(&Check{ID: "C13", Level: "fault_enumeration",
-		Rule:   "7 session scripts (unconnected, connecting, active idle, active with traffic and pending QoS 1/2 transactions, asleep, asleep with pinger, awake) x 7 causes (gateway shutdown, plain DISCONNECT, broker FIN, broker RST, undecodable datagram, illegal packet, connect timeout) at a seeded instant; deadline = cause + 100 ms + 3 ms; DISCONNECT-to-client rule; goroutine census of gateway/transactions/util frames after final shutdown; non-trivial = a termination cause occurred",
-		Gen:    genC13, Oracle: oracleC13, Quick: 560, Thorough: 28000})
+		Rule:   "8 session scripts (unconnected, connecting, active idle, active with traffic and pending QoS 1/2 transactions, asleep, asleep with pinger, awake, back from sleep with CONNECT while QoS 0-2 messages wait in the buffer with retry timers of a few ms and a slow gateway) x 7 causes (gateway shutdown, plain DISCONNECT, broker FIN, broker RST, undecodable datagram, illegal packet, connect timeout) at a seeded instant; deadline = cause + 100 ms + 3 ms; DISCONNECT-to-client rule; goroutine census of gateway/transactions/util frames after final shutdown; non-trivial = a termination cause occurred",
+		Gen:    genC13, Oracle: oracleC13, Quick: 640, Thorough: 32000})
 	Register(&Check{ID: "C14", Level: "fault_enumeration",
 		Rule:   "same script x cause space as C13; an MQTT DISCONNECT on a session's broker stream must be the translation of a consumed plain MQTT-SN DISCONNECT; non-trivial = session ended or an MQTT DISCONNECT was written",
-		Gen:    func(g *Gen, idx int) *Plan { p := genC13(g, idx); p.Family = strings.Replace(p.Family, "C13", "C14", 1); return p }, Oracle: oracleC14, Quick: 560, Thorough: 28000})
+		Gen:    func(g *Gen, idx int) *Plan { p := genC13(g, idx); p.Family = strings.Replace(p.Family, "C13", "C14", 1); return p }, Oracle: oracleC14, Quick: 640, Thorough: 32000})
 	Register(&Check{ID: "C34", Level: "fault_enumeration",
 		Rule:   "the C13 session scripts (plus: long sleep, then a short one announced while asleep) cut at a seeded event index after which the peer is silent forever; broker model enforces keep-alive (drops after 1.5 x KA without a packet) and drops connections without CONNECT after 5 s; keep-alive 3-12 s, sleeps 1-25 s; deadline by state: accept+5 s / last CONNECT+5 s before connecting, last activity + 1.5 KA active/awake, + announced sleep asleep, + 200 ms poll + 3 ms; non-trivial = every session",
 		Gen:    genC34, Oracle: oracleC34, Quick: 420, Thorough: 14000})
